@@ -190,6 +190,16 @@ def rand_subregions(rng, spec, kmax=3, names=None):
     return boxes, regions
 
 
+def shuffle_keys(rng, d, p=0.5):
+    """The same dict with its keys inserted in a random order (probability p): a
+    component-to-axis mapping is a mapping - nothing may depend on the order in which the
+    user happened to write its entries."""
+    if not d or rng.random() >= p:
+        return d
+    keys = list(d)
+    return {keys[int(k)]: d[keys[int(k)]] for k in rng.permutation(len(keys))}
+
+
 def rand_valid(rng, n, kind=None):
     n = tuple(int(k) for k in n)
     kind = kind or pick(rng, ["all", "random", "random", "sparse", "dense"])
@@ -256,7 +266,8 @@ def rand_field(rng, mesh, nvdim=None, dtype=None, vdims="random", valid="random"
     labels = kw.get("vdims") or default_vdims(nvdim)
     if mapping == "perm" and nvdim > 1 and nvdim == mesh.region.ndim:
         perm = rng.permutation(nvdim)
-        kw["vdim_mapping"] = {labels[i]: mesh.region.dims[int(perm[i])] for i in range(nvdim)}
+        kw["vdim_mapping"] = shuffle_keys(
+            rng, {labels[i]: mesh.region.dims[int(perm[i])] for i in range(nvdim)})
     elif isinstance(mapping, dict):
         kw["vdim_mapping"] = mapping
     f = df.Field(mesh, nvdim=nvdim, value=arr, valid=val.copy(), **kw)
